@@ -3,7 +3,7 @@
 # of its property at several generator seeds (4 changes at a time, each in its own scratch worktree).
 # Output: one line per change: <id> seed=exit … ; exit 1 = caught, 0 = missed, 2 = inconclusive.
 SEEDS=${1:-"20260925 3 11"}; shift
-DIRS=${@:-$(ls -d /verif/seeded/*/ | sort -V)}
+DIRS=${@:-$(ls -d /verif/seeded/C*/ | sort -V)}
 one() {
   d=${1%/}; id=$(basename $d); prop=${id%%-*}; wt=/tmp/mx-$id
   git -C /repo worktree add -q --detach $wt HEAD 2>/dev/null || { echo "$id worktree-failed"; return; }
